@@ -1668,6 +1668,145 @@ func TestVerifConc(t *testing.T) {
 			}
 			out.Emit(verifkit.M{"ev": "liveness", "sid": sid, "scenario": "cursor keys while the loaders of the page are fetching", "issued": 1, "returned": moved})
 		}
+		if sid%3 == 1 {
+			/* an ancestor that arrives late (its author is slow), on a page whose replies are all there: cursor keys
+			   in between must not start the loading of the ancestors again - in the end the thread shows each once */
+			jtp.VerifSetCache(256)
+			tag := fmt.Sprintf("/late%d", sid)
+			u := func(p string) string { return w.h.URL(p) }
+			w.put(tag+"/dave", map[string]any{"type": "Person", "name": "dave", "preferredUsername": "dave"})
+			w.put(tag+"/x0", map[string]any{"type": "Note", "name": "x0", "attributedTo": u(tag + "/dave"), "content": "<p>root</p>", "published": "2024-01-01T00:00:00Z"})
+			w.put(tag+"/x1", map[string]any{"type": "Note", "name": "x1", "attributedTo": u(tag + "/dave"), "content": "<p>middle</p>", "published": "2024-01-02T00:00:00Z", "inReplyTo": u(tag + "/x0")})
+			w.put(tag+"/x2", map[string]any{"type": "Note", "name": "x2", "content": "<p>leaf</p>", "published": "2024-01-03T00:00:00Z", "inReplyTo": u(tag + "/x1"),
+				"replies": map[string]any{"type": "Collection", "items": []any{}}})
+			gate3 := make(chan struct{})
+			w.h.Gated(tag+"/dave", gate3)
+			ac := &verifConc{verifSession: verifNewSession(w, out, sid, false)}
+			ac.s = NewState(80, 24, ac.callback)
+			above, opened := -1, false
+			if err := ac.s.Subcommand("open", u(tag+"/x2")); err == nil {
+				for waited := 0; waited < 600; waited++ {
+					ac.s.m.Lock()
+					opened = ac.s.mode != loading
+					ac.s.m.Unlock()
+					if opened {
+						break
+					}
+					time.Sleep(5 * time.Millisecond)
+				}
+				time.Sleep(30 * time.Millisecond) /* the replies (none) are in; the ancestors wait for their author */
+				for _, b := range []byte("kjkkjjk") {
+					ac.s.Update(b)
+					time.Sleep(2 * time.Millisecond)
+				}
+				close(gate3)
+				w.h.Ungate(tag + "/dave")
+				if ac.settle(10 * time.Second) {
+					ac.s.m.Lock()
+					f := ac.s.h.Current().feed
+					above = 0
+					for d := -1; d >= -50 && f.Contains(d); d-- {
+						above++
+					}
+					ac.s.m.Unlock()
+				}
+			} else {
+				close(gate3)
+				w.h.Ungate(tag + "/dave")
+			}
+			if opened {
+				out.Emit(verifkit.M{"ev": "atomic", "sid": sid, "scenario": "cursor keys while the ancestors of the page wait for their author", "what": "items above the opened post", "expected": 2, "observed": above})
+			}
+		}
+		if sid%3 == 1 {
+			/* a post one of whose parts (its author) takes longer than the configured timeout says, yet arrives: the
+			   page shows the post when it is complete, and nothing writes to it afterwards */
+			tag := fmt.Sprintf("/slowpart%d", sid)
+			u := func(p string) string { return w.h.URL(p) }
+			w.put(tag+"/erin", map[string]any{"type": "Person", "name": "erin", "preferredUsername": "erin"})
+			if route := w.h.Route(tag + "/erin"); route != nil {
+				route.Delay = 450 * time.Millisecond
+			}
+			w.put(tag+"/y", map[string]any{"type": "Note", "name": "y", "attributedTo": u(tag + "/erin"), "content": "<p>slow author</p>", "published": "2024-01-03T00:00:00Z"})
+			restore := verifSetConfigTimeout(120 * time.Millisecond)
+			sc := &verifConc{verifSession: verifNewSession(w, out, sid, false)}
+			sc.s = NewState(80, 24, sc.callback)
+			authors, shown := -1, false
+			if err := sc.s.Subcommand("open", u(tag+"/y")); err == nil {
+				for waited := 0; waited < 1200 && !shown; waited++ {
+					sc.s.m.Lock()
+					shown = sc.s.mode != loading
+					if shown && !sc.s.h.IsEmpty() && sc.s.h.Current().feed.Contains(0) {
+						if post, isPost := sc.s.h.Current().feed.Get(0).(*pub.Post); isPost {
+							authors = 0
+							for _, c := range post.Creators() {
+								if _, isActor := c.(*pub.Actor); isActor {
+									authors++
+								}
+							}
+						}
+					}
+					sc.s.m.Unlock()
+					if !shown {
+						time.Sleep(5 * time.Millisecond)
+					}
+				}
+				/* keep drawing while a straggler might still be writing */
+				for k := 0; k < 12; k++ {
+					sc.s.SetWidthHeight(60+k, 20)
+					time.Sleep(50 * time.Millisecond)
+				}
+				sc.settle(5 * time.Second)
+			}
+			restore()
+			if shown {
+				out.Emit(verifkit.M{"ev": "atomic", "sid": sid, "scenario": "a post whose author answers after the configured timeout", "what": "authors of the post when the page first shows it", "expected": 1, "observed": authors})
+			}
+		}
+		if sid%3 == 2 {
+			/* keys and a resize while the media program is running (a player may run for minutes): they are handled
+			   while it runs, not after it has exited */
+			os.Setenv("VERIF_HOOK_SLEEP_MS", "2500")
+			os.Setenv("GORACE", "atexit_sleep_ms=0")
+			mc := &verifConc{verifSession: verifNewSession(w, out, sid, false)}
+			mc.s = NewState(80, 24, mc.callback)
+			if err := mc.s.Subcommand("open", w.h.URL(w.startA)); err == nil && mc.settle(8*time.Second) {
+				os.Remove(mc.dump)
+				go mc.s.Update('p')
+				started := false
+				for waited := 0; waited < 400 && !started; waited++ {
+					_, statErr := os.Stat(mc.dump)
+					started = statErr == nil
+					time.Sleep(5 * time.Millisecond)
+				}
+				if started {
+					issued, prompt := 0, int32(0)
+					var wg sync.WaitGroup
+					for _, act := range []func(){func() { mc.s.Update('z') }, func() { mc.s.SetWidthHeight(77, 21) }, func() { mc.s.Update(27) }, func() { mc.s.Update('j') }} {
+						issued++
+						act := act
+						wg.Add(1)
+						go func() {
+							defer wg.Done()
+							done := make(chan struct{})
+							go func() { act(); close(done) }()
+							select {
+							case <-done:
+								atomic.AddInt32(&prompt, 1)
+							case <-time.After(1200 * time.Millisecond):
+								<-done
+							}
+						}()
+						time.Sleep(20 * time.Millisecond)
+					}
+					wg.Wait()
+					out.Emit(verifkit.M{"ev": "liveness", "sid": sid, "scenario": "keys and a resize while the media program runs (2.5 s): handled within 1.2 s", "issued": issued, "returned": atomic.LoadInt32(&prompt)})
+				}
+				time.Sleep(2600 * time.Millisecond)
+			}
+			os.Unsetenv("VERIF_HOOK_SLEEP_MS")
+			mc.hookCalls()
+		}
 		if sid%3 == 0 {
 			/* a slow media hook that is abandoned with Esc (or another key) before it exits; afterwards
 			   keys must still be handled: every one of them has to return */
@@ -1784,4 +1923,22 @@ func verifTimeoutMs(timeout any) int64 {
 		return clamp(v.Float() * 1000)
 	}
 	return -1
+}
+
+/* sets the configured timeout (whatever type the field has) and returns a function that puts the old value back */
+func verifSetConfigTimeout(d time.Duration) func() {
+	field := reflect.ValueOf(&config.Parsed.Network.Timeout).Elem()
+	old := reflect.New(field.Type()).Elem()
+	old.Set(field)
+	switch field.Kind() {
+	case reflect.Int64, reflect.Int:
+		if _, isDuration := field.Interface().(time.Duration); isDuration {
+			field.SetInt(int64(d))
+		} else {
+			field.SetInt(int64(d / time.Second))
+		}
+	case reflect.Float64, reflect.Float32:
+		field.SetFloat(d.Seconds())
+	}
+	return func() { field.Set(old) }
 }
